@@ -82,7 +82,7 @@ int main(int argc, char **argv) {
         if (t[0] == "R") {
             kind = t[1]; unsigned s = num(t[2]);
             if (kind == "c") C.reset(s); else if (kind == "xc") XC.reset(new igris::ring<char>(s - 1)); else XI.reset(new igris::ring<int>(s - 1));
-            Ev e("Reset"); e.str("kind", kind.c_str()); obs(e); e.end(); return;
+            Ev e("Reset"); e.str("kind", kind.c_str()).i("req", (long)s); obs(e); e.end(); return;
         }
         if (kind == "c") cop(t); else if (kind == "xc") xop<igris::ring<char>, char>(*XC, t); else xop<igris::ring<int>, int>(*XI, t);
     });
